@@ -145,6 +145,8 @@ class Ctx:
         self.solver.add(t)
 
     def check(self, *extra):
+        if getattr(self, "assume_feasible", False):
+            return True
         r = self.solver.check(*extra)
         if r == z3.unknown:
             raise Unsupported(f"solver unknown on path condition: {self.solver.reason_unknown()}")
@@ -161,6 +163,11 @@ class Ctx:
         pos = len(self.decisions)
         if pos < len(self.prefix):
             d = self.prefix[pos]
+        elif getattr(self, "assume_feasible", False):
+            # theories the path solver cannot decide quickly (strings): explore both sides; an infeasible
+            # side only yields obligations with an unsatisfiable path condition
+            d = True
+            self.alternatives.append(self.decisions + [False])
         else:
             can_t = self.check(t)
             can_f = self.check(z3.Not(t))
@@ -292,6 +299,8 @@ class Interp:
             return v.length > 0
         if isinstance(v, AbsSeq):
             return v.length > 0
+        if isinstance(v, NativeAbs) and hasattr(v, "truth_term"):
+            return v.truth_term(self)
         if isinstance(v, AbsAcc):
             return (v.ghost_len + len(v.tail)) > 0
         if isinstance(v, (ExcVal, BoundMethod, Closure, FuncInfo, ClassInfo, LambdaV)):
@@ -316,6 +325,10 @@ class Interp:
                     return True
             else:
                 return True
+        if isinstance(a, NativeAbs) and hasattr(a, "eq_term"):
+            return a.eq_term(self, b)
+        if isinstance(b, NativeAbs) and hasattr(b, "eq_term"):
+            return b.eq_term(self, a)
         if isinstance(a, Obj):
             owner, m = a.cls.lookup("__eq__")
             if isinstance(m, FuncInfo):
@@ -1287,6 +1300,10 @@ class Interp:
 
     def binop(self, op, a, b, inplace=False):
         T = type(op)
+        if isinstance(a, NativeAbs) and hasattr(a, "binop"):
+            return a.binop(self, T, b, False)
+        if isinstance(b, NativeAbs) and hasattr(b, "binop"):
+            return b.binop(self, T, a, True)
         if isinstance(a, (list,)) and T is ast.Add:
             if inplace:
                 self.ctx.cwrites.append(id(a))
